@@ -580,8 +580,10 @@ mod fp61bit {
             let val = (val & PRIME) + (val >> Self::BITS);
             // another round if val ended up being greater than PRIME
             let val = (val & PRIME) + (val >> Self::BITS);
-            if val == PRIME {
-                Self::ZERO
+            // two rounds leave a value below PRIME + 2^6 + 2, so one subtraction completes
+            // the reduction
+            if val >= PRIME {
+                Self((val - PRIME) as <Self as SharedValue>::Storage)
             } else {
                 Self(val as <Self as SharedValue>::Storage)
             }
